@@ -460,6 +460,11 @@ CHECK_DEADLOCK FALSE
                 continue
             seen3.add(key)
             f.write(json.dumps({"meta": {"bits": 4, "self": 5, "routers": []}, "ops": ops}) + "\n")
+            # ... and, for the lives that end with a query sent to the contact, the same life with the contact named once more by
+            # hearsay at the end (a contact that lapsed to bad standing must be admitted anew)
+            if ops[-1].get("op") == "local":
+                f.write(json.dumps({"meta": {"bits": 4, "self": 5, "routers": []},
+                                    "ops": ops + [{"op": "quest", "id": ops[-1]["id"], "addr": ops[-1]["addr"]}]}) + "\n")
     n3 = len(seen3)
     # binding 2: production constants, seeded random long behaviours
     n2 = gen_table_random(beh + ".2", vlib.seed(), 25 if q else 300, 90 if q else 160)
